@@ -89,7 +89,7 @@ theorem C06_buffer_is_disk_content (c : Cfg) (h : FileH) (s : St) :
       r.1 = rcOK → r.2.curData = padTo ((s.sector (vsect c h.vol r.2.curDataPtr)).take 512) 512) := by
   refine Post.mono _ _ _ _ _ (fileReadNextBlock_spec c h s) ?_
   rintro r s' ⟨_, _, _, h3⟩ hok
-  exact (h3 hok).2.2
+  exact (h3 hok).2.2.1
 
 /-- entry metadata is a function of the header block alone -/
 theorem C06_metadata_function_of_block (b1 b2 : Blk) (h : b1 = b2) : entBlock2Entry b1 = entBlock2Entry b2 := by
